@@ -205,6 +205,7 @@ def blob_facts():
     return [v >= 0 for v in ABS_LEN.values() if is_sym(v)]
 
 zerosfn = z3.Function("zeros", z3.IntSort(), BYTES)
+repeatfn = z3.Function("bytes_repeat", BYTES, z3.IntSort(), BYTES)       # b * k for a symbolic b or k: uninterpreted, length structural
 ABS_LEN = {}    # name of a Seq constant -> Int term standing for its length (never given to the sequence solver)
 
 def abstract_seq(name, length=None):
@@ -231,6 +232,8 @@ def slen(v):
             if isinstance(la, int) and isinstance(lb, int) and la == lb: return la
             return z3.If(c, la, lb)
         if k == z3.Z3_OP_UNINTERPRETED and v.decl().name() == "zeros": return v.arg(0)
+        if k == z3.Z3_OP_UNINTERPRETED and v.decl().name() == "bytes_repeat":
+            n_ = v.arg(1); return z3.If(n_ > 0, n_, 0) * slen(v.arg(0))
         if k == z3.Z3_OP_UNINTERPRETED and v.num_args() == 0:
             n = v.decl().name()
             if n in ABS_LEN: return ABS_LEN[n]
@@ -709,6 +712,15 @@ class Engine:
                     i = z3.Int("i!q")
                     self.assume(z3.ForAll([i], z3.Implies(z3.And(i >= 0, i < n_), r[i] == 0)))
                     return r
+                if isinstance(k, int) or is_symint(k):
+                    if isinstance(k, int) and k <= 0: return b""
+                    if isinstance(k, int) and k == 1: return by
+                    if isinstance(k, int) and k <= 4: return z3.Concat(*[to_z3bytes(by)] * k)
+                    zb = to_z3bytes(by); kk = k if is_sym(k) else z3.IntVal(k)
+                    self.assume(z3.Implies(kk <= 0, repeatfn(zb, kk) == z3.Empty(BYTES)))
+                    self.assume(z3.Implies(kk == 1, repeatfn(zb, kk) == zb))
+                    self.assume(z3.Implies(kk >= 1, repeatfn(zb, kk) == z3.Concat(zb, repeatfn(zb, kk - 1))))
+                    return repeatfn(zb, kk)
             raise Unsupported("bytes op")
         if is_symstr(a) or is_symstr(b):
             if isinstance(op, ast.Add) and (isinstance(a, str) or is_symstr(a)) and (isinstance(b, str) or is_symstr(b)):
